@@ -102,7 +102,10 @@ type Seg struct {
 	S string
 	B *sym.Term
 	D *sym.Term
+	H *HashToken // opaque rendering (base64) of a hash value
 }
+
+func (s Seg) conc() bool { return s.B == nil && s.D == nil && s.H == nil }
 
 type Rope struct{ Segs []Seg }
 
@@ -129,11 +132,11 @@ func normRope(r *Rope) Value {
 		if s.D != nil && s.D.IsConst() {
 			s = Seg{S: s.D.Val.String()}
 		}
-		if s.B == nil && s.D == nil {
+		if s.conc() {
 			if s.S == "" {
 				continue
 			}
-			if n := len(out); n > 0 && out[n-1].B == nil && out[n-1].D == nil {
+			if n := len(out); n > 0 && out[n-1].conc() {
 				out[n-1].S += s.S
 				continue
 			}
@@ -143,7 +146,7 @@ func normRope(r *Rope) Value {
 	if len(out) == 0 {
 		return ""
 	}
-	if len(out) == 1 && out[0].B == nil && out[0].D == nil {
+	if len(out) == 1 && out[0].conc() {
 		return out[0].S
 	}
 	return &Rope{Segs: out}
@@ -164,7 +167,7 @@ func concatStr(a, b Value) Value {
 
 func (r *Rope) hasDec() bool {
 	for _, s := range r.Segs {
-		if s.D != nil {
+		if s.D != nil || s.H != nil {
 			return true
 		}
 	}
@@ -176,7 +179,7 @@ func (r *Rope) byteLen() (int, bool) {
 	n := 0
 	for _, s := range r.Segs {
 		switch {
-		case s.D != nil:
+		case s.D != nil, s.H != nil:
 			return 0, false
 		case s.B != nil:
 			n++
@@ -192,7 +195,7 @@ func (r *Rope) bytes() ([]Value, bool) {
 	var out []Value
 	for _, s := range r.Segs {
 		switch {
-		case s.D != nil:
+		case s.D != nil, s.H != nil:
 			return nil, false
 		case s.B != nil:
 			out = append(out, s.B)
@@ -221,6 +224,12 @@ func ropeFromBytes(bs []Value) Value {
 		case *sym.Term:
 			flush()
 			r.Segs = append(r.Segs, Seg{B: b})
+		case *Rope:
+			flush()
+			r.Segs = append(r.Segs, b.Segs...)
+		case *HashToken:
+			flush()
+			r.Segs = append(r.Segs, Seg{H: b})
 		default:
 			panic(unsupported("ropeFromBytes %T", b))
 		}
@@ -233,6 +242,8 @@ func (r *Rope) String() string {
 	var sb strings.Builder
 	for _, s := range r.Segs {
 		switch {
+		case s.H != nil:
+			sb.WriteString("‹hash›")
 		case s.D != nil:
 			sb.WriteString("‹dec " + s.D.String() + "›")
 		case s.B != nil:
@@ -465,8 +476,8 @@ type SyncMap struct{ m *Map }
 type Builder struct{ v Value }
 
 func (in *Interp) opaqueOf(t types.Type) opaqueKind {
-	if k, ok := in.opaqueCache[t]; ok {
-		return k
+	if k, ok := in.opaqueSync.Load(t); ok {
+		return k.(opaqueKind)
 	}
 	k := opNone
 	if n, ok := t.(*types.Named); ok {
@@ -480,9 +491,7 @@ func (in *Interp) opaqueOf(t types.Type) opaqueKind {
 			}
 		}
 	}
-	in.opaqueMu.Lock()
-	in.opaqueCache[t] = k
-	in.opaqueMu.Unlock()
+	in.opaqueSync.Store(t, k)
 	return k
 }
 
